@@ -2,7 +2,8 @@
 
 PROVED (Props/C06.lean, about Model/SeededRun.lean + Model/Memo.lean):
   run_deterministic, run_fuel_irrelevant, run_refines_scripted, run_prefix, stream_position, draws_layout,
-  memo_transparent, memo_capacity, memo_key_sufficiency_needed, memo_mutation_breaks.
+  records_closed_form, memo_transparent, memo_history_independent, memo_capacity, memo_key_sufficiency_needed,
+  memo_mutation_breaks.
 TIED to the code on every run (exact correspondence, this module):
   (memo)   Model/Memo.lean against CPython's functools.lru_cache (answers, hit/miss pattern, currsize, eviction order,
            key-forgetting wrapper, aliasing mutation) — the semantics all qecsim caches rely on;
